@@ -323,8 +323,10 @@ impl chain::Listen for Gatekeeper {
                 for outdated_user in outdated_users.iter() {
                     registered_users.remove(outdated_user);
                 }
+                // And from the database before anyone else can look at the users again: a user that is gone from memory but
+                // still in the database cannot register anew.
+                self.dbm.lock().unwrap().batch_remove_users(&outdated_users);
             }
-            self.dbm.lock().unwrap().batch_remove_users(&outdated_users);
         }
 
         // Update last known block height
